@@ -76,3 +76,39 @@ Proof.
   split; [exact N|exact K].
 Qed.
 Print Assumptions C01_factorisation_keys_are_canonical.
+
+(* ---- element tables: classification, reduction and the index the generated code reads (Tab.v) ----
+   TabGen.v is regenerated from ffcx/ir/elementtables.py and codegeneration/access.py on every run; the statements
+   below say that what was read off the source is what the model has, and that under the model the value read for
+   permutation slot 0 (cell and exterior-facet integrals) is within the table tolerances of the value it replaces,
+   for every table, every shape and every in-range index. *)
+From Coq Require Import QArith Qabs String.
+From FFCX Require Import Tab.
+From FFCXGen Require Import TabGen.
+
+Theorem C01_table_types_that_drop_an_axis_are_the_modelled_ones :
+  forall t, piecewise_tt t = name_in t gen_piecewise_ttypes /\ uniform_tt t = name_in t gen_uniform_ttypes.
+Proof. intros t. destruct t; split; vm_compute; reflexivity. Qed.
+Print Assumptions C01_table_types_that_drop_an_axis_are_the_modelled_ones.
+
+Theorem C01_table_predicates_compare_the_modelled_slices :
+  gen_is_piecewise = (["0"; ":"; "0"; ":"], ["0"; ":"; "i"; ":"], 2%nat)%string /\
+  gen_is_uniform = (["0"; "0"; ":"; ":"], ["0"; "i"; ":"; ":"], 1%nat)%string /\
+  gen_is_permuted_negated = (["0"; ":"; ":"; ":"], ["i"; ":"; ":"; ":"], 0%nat)%string.
+Proof. repeat split; reflexivity. Qed.
+Print Assumptions C01_table_predicates_compare_the_modelled_slices.
+
+Theorem C01_reduced_table_is_read_inside_its_extent :
+  forall rtol atol T p e q d, in_range T p e q d ->
+    let '(T', t, perm) := reduce rtol atol T in
+    in_range T' (if perm then p else 0%nat) (if uniform_tt t then 0%nat else e) (if piecewise_tt t then 0%nat else q) d.
+Proof. exact access_index_in_range. Qed.
+Print Assumptions C01_reduced_table_is_read_inside_its_extent.
+
+Theorem C01_reduced_table_value_within_tolerance :
+  forall rtol atol, (0 <= rtol)%Q -> (0 <= atol)%Q ->
+  forall T e q d, in_range T 0 e q d ->
+    (Qabs (val T 0 e q d - used (reduce rtol atol T) 0 e q d)
+     <= 2 * atol + rtol * (Qabs (val T 0 e q d) + Qabs (val T 0 0 q d) + 1))%Q.
+Proof. exact reduce_sound_perm0. Qed.
+Print Assumptions C01_reduced_table_value_within_tolerance.
